@@ -43,7 +43,7 @@ def run_asyncio_adapter(inp):
         await asyncio.sleep(0)
         adapter = AsyncioTransportStreamSocketAdapter(AsyncIOBackend(), transport, protocol)
         try:
-            await adapter.send_all_from_iterable(iter(c04._typed(chunks)))
+            await adapter.send_all_from_iterable(iter(c04._typed(chunks, wide=False)))
             for _ in range(20000):
                 if not transport.get_write_buffer_size():
                     break
@@ -173,7 +173,7 @@ def run_async_tls(inp):
         tls = AsyncTLSStreamTransport(_transport=mem, _standard_compatible=True, _shutdown_timeout=1.0,
                                       _ssl_object=ScriptedSSLObject(script), _read_bio=ssl.MemoryBIO(), _write_bio=ssl.MemoryBIO())
         try:
-            await tls.send_all_from_iterable(iter(c04._typed(chunks)))
+            await tls.send_all_from_iterable(iter(c04._typed(chunks, wide=False)))
         except BaseException as exc:  # noqa: BLE001
             if isinstance(exc, (KeyboardInterrupt, SystemExit)):
                 raise
@@ -205,7 +205,8 @@ def run_adapter_multi(inp):
     datas = [[realio.chunk_bytes(c if isinstance(c, bytes) else tuple(c)) for c in chunks] for _kind, chunks, _k in sends]
     total = sum(len(c) for d in datas for c in d)
     clock = iosim.Clock()
-    script = iosim.SockScript(clock, send=[(0, k, 0) for _kind, _chunks, k in sends], bound=10 * (total + 3 * len(sends)) + 50)
+    script = iosim.SockScript(clock, send=[(0, k, 0) if k >= 0 else (5, 0, 0) for _kind, _chunks, k in sends],
+                              bound=10 * (total + 3 * len(sends)) + 50)
     sock, peer = iosim.make_pair(iosim.ScriptedSocket, script)
     sock.setblocking(False)
     outcome = 0
@@ -222,7 +223,7 @@ def run_adapter_multi(inp):
                 if kind == 0:
                     await adapter.send_all(b"".join(data))
                 else:
-                    await adapter.send_all_from_iterable(iter(c04._typed(data)))
+                    await adapter.send_all_from_iterable(iter(c04._typed(data, wide=False)))
                 got.extend(iosim.drain(peer))
             for _ in range(20000):
                 if not transport.get_write_buffer_size():
